@@ -74,6 +74,10 @@ def make_world(sx, tt, oldlen):
         return worlds.T4World(sx, 0x20, 255, 255, 32, oldlen, typ="A", fsci=8, fill=0x41)
     if tt == "tt4b":
         return worlds.T4World(sx, 0x30, 20, 9, 32, oldlen, typ="B", fsci=4, fill=0x41)
+    if tt == "tt4longchain":
+        # a READ BINARY answer chained over 8 card blocks (more blocks than the
+        # retry budget of 5): every block has its own budget
+        return worlds.T4World(sx, 0x20, 255, 255, 120, 100, typ="A", fsci=8, tx_size=13, fill=0x41)
     if tt == "tt4chain":
         # FSC 16: every UPDATE BINARY / READ BINARY answer of 20 bytes is chained
         return worlds.T4World(sx, 0x20, 20, 20, 40, oldlen, typ="A", fsci=0, tx_size=13, fill=0x41)
@@ -114,6 +118,7 @@ def activation_faults(sx, tt, kinds, lengths):
 def op_faults(sx, tt, op, kinds, lengths):
     oldlen = 5
     w = make_world(sx, tt, oldlen)
+    oldlen = w.oldlen
     tag = w.fresh_tag()
     if tag is None:
         sx.check(False, "activate-returned-none:" + tt)
@@ -172,6 +177,11 @@ def op_faults(sx, tt, op, kinds, lengths):
             sx.check(False, "transient-burst-not-absorbed:%s:%s:len=%d" % (who, burst.kind, burst.length))
         return ["error", op, burst.kind]
     # operation completed: absorbed, or a documented None/False result
+    if burst.at_sector_select and burst.kind == "timeout":
+        # a lost second SECTOR SELECT packet is indistinguishable from its
+        # passive acknowledgement (silence): nothing is demanded of the result
+        sx.reach("sector_select_packet_lost_silently")
+        return ["done", op, burst.kind]
     if op == "read":
         if outcome[1] is None:
             sx.reach("read_gave_none")
@@ -233,7 +243,8 @@ def partitions(tier):
            "tt3emu": ["read", "write"],
            "tt4a": ["read", "write", "present", "format"],
            "tt4b": ["read", "write"],
-           "tt4chain": ["read", "write"]}
+           "tt4chain": ["read", "write"],
+           "tt4longchain": ["read"]}
     if tier != "quick":
         for tt in ("tt2", "tt1", "tt1dyn", "tt4a"):
             ops[tt].append("formatwipe")
